@@ -171,6 +171,14 @@ def universe(tier):
         for m in inner:
             for u in (K2(m) if tier == "thorough" else Kq(m)):
                 add(u)
+    # array length under wrappers whose alignment hash does not recurse
+    for t in [prim("u8"), prim("u16"), inst("P1"), STRING]:
+        for n in (0, 1, 2, 3, 4):
+            add(bound(arr(t, n))); add(opt(arr(t, n)))
+            if t.zc:
+                add(inst("GP", [vec(prim("u8")), T(f"[{t.expr}; {n}]", True, True, "", 0)]))
+    # a structure whose destructor reads its borrowed data
+    add(T("DR<Vec<u64>>", False, False, "DR<&'a [u64]>", 1))
     # ranges that are not the last thing in the stream
     for k in RANGES:
         for ix in [prim("u8"), prim("u64"), inst("P1")]:
@@ -252,8 +260,35 @@ use epserde::prelude::*;
 """
 
 
+DR_SRC = """
+/// A structure whose destructor reads the data it holds (borrowed, after ε-copy deserialization).
+#[derive(Epserde, Clone, Debug)]
+pub struct DR<A: AsRef<[u64]>> { pub data: A }
+pub static DR_DROPS: core::sync::atomic::AtomicU64 = core::sync::atomic::AtomicU64::new(0);
+impl<A: AsRef<[u64]>> Drop for DR<A> {
+    fn drop(&mut self) {
+        // touch every item of the data
+        let mut h = 0u64;
+        for x in self.data.as_ref() { h = h.wrapping_mul(31).wrapping_add(unsafe { core::ptr::read_volatile(x) }); }
+        DR_DROPS.fetch_add(h | 1, core::sync::atomic::Ordering::Relaxed);
+    }
+}
+impl vcore::dom::Dom for DR<Vec<u64>> {
+    fn ty() -> Ty { Ty::Adt(std::rc::Rc::new(Adt { name: "DR".to_string(), is_enum: false, zero: false, reprs: vec![], consts: vec![], variants: vec![Variant { name: "DR".to_string(), style: VStyle::Named, fields: vec![Field { name: "data".to_string(), ty: <Vec<u64> as vcore::dom::Dom>::ty(), is_param: true }] }] })) }
+    fn values(cx: &mut vcore::dom::ValCx) -> Vec<Self> { <Vec<u64> as vcore::dom::Dom>::values(cx).into_iter().map(|d| DR { data: d }).collect() }
+    fn to_val(&self) -> Val { Val::Struct(vec![vcore::dom::Dom::to_val(&self.data)]) }
+    fn scale(&self, k: usize) -> Self { DR { data: vcore::dom::Dom::scale(&self.data, k) } }
+    fn owned(&self, out: &mut Vec<(usize, usize)>) { vcore::dom::Dom::owned(&self.data, out) }
+}
+impl<A: AsRef<[u64]> + vcore::dom::EpsView> vcore::dom::EpsView for DR<A> {
+    fn eps_val(&self) -> Val { Val::Struct(vec![self.data.eps_val()]) }
+    fn spans(&self, out: &mut Vec<vcore::dom::Span>) { self.data.spans(out) }
+}
+"""
+
+
 def emit_udefs():
-    s = PRELUDE + "use vcore::model::*;\n\n"
+    s = PRELUDE + "use vcore::model::*;\n\n" + DR_SRC
     for d in D.curated():
         s += d.item() + "\n" + d.dom_impl() + "\n" + d.eps_impl() + "\n"
     write_if_changed(os.path.join(H, "udefs/src/lib.rs"), s)
